@@ -54,7 +54,9 @@ def gen_erow(rng, internal_table=False):
     g = gen_gx(rng) if rng.random() < 0.6 else None
     nacts = rng.choice([0, 0, 1, 1, 2, 3, 3, 4, 5, 6])
     acts = [rng.randrange(NA) for _ in range(nacts)]
-    if e is None and g is None and not acts and form == "internal":
+    if e is None and g is None and not acts and form in ("internal", "last"):
+        # `sA == sB` with nothing else is read by eUML as Target == Source (the "first" form): the text of a
+        # "last"-form row without event, guard and action would be ambiguous
         e = rng.randrange(NE)
     return {"form": form, "s": s, "e": e, "t": t, "g": g, "acts": acts}
 
